@@ -159,7 +159,30 @@ class EffectivePotential(ABC):
 
             guess = guesses.getFieldPoint(i)
 
-            res = scipy.optimize.minimize(evaluateWrapper, guess, tol=tol)
+            # scipy's default gradient is a forward difference with an ABSOLUTE step of
+            # 1.5e-8, whose accuracy depends on the units of the fields. If the field
+            # scales are known, use central differences with steps proportional to them.
+            gradientWrapper = None
+            if self.areDerivativesConfigured():
+                steps = np.asarray(
+                    self.derivativeSettings.fieldValueVariationScale, dtype=float
+                ) * self.effectivePotentialError ** (1 / 3)
+
+                def gradientWrapper(fieldArray: np.ndarray) -> np.ndarray:
+                    grad = np.empty(len(fieldArray))
+                    for j, step in enumerate(steps):
+                        shift = np.zeros(len(fieldArray))
+                        shift[j] = step
+                        difference = np.asarray(
+                            evaluateWrapper(fieldArray + shift)
+                            - evaluateWrapper(fieldArray - shift)
+                        )
+                        grad[j] = difference.reshape(-1)[0] / (2 * step)
+                    return grad
+
+            res = scipy.optimize.minimize(
+                evaluateWrapper, guess, jac=gradientWrapper, tol=tol
+            )
 
             resLocation[i] = res.x
             resValue[i] = res.fun
